@@ -11,6 +11,11 @@ ALPH = ["a", "A", "b", "a-", "a_", "1", "", "aB", "a2", "a b"]
 MODES = ["merge", "preserve", "relaxed"]
 
 
+def alower(x):
+    """ASCII case folding only (the property speaks of ASCII letter-case)"""
+    return "".join(ch.lower() if ch.isascii() else ch for ch in x)
+
+
 def tok(v):
     if isinstance(v, bool):
         return "Bt" if v else "Bf"
@@ -34,7 +39,7 @@ def value_lists(tier, rnd):
         for t in itertools.product(ALPH, repeat=k):
             ls.append(list(t))
     extra = [["foo-bar", "foo_bar"], ["a2", "a", "A"], [3, 4], [1, "1"], [True, False], ["on", "Off", "ON"], ["x{}y"], ["type", "match"],
-             ["A", "a", "A1"], ["", "none"], [-1, 1], ["a", "a"]]
+             ["A", "a", "A1"], ["", "none"], [-1, 1], ["a", "a"], ["Ärger", "x"], ["É", "é", "e"], ["Über", "über"]]
     return ls, extra
 
 
@@ -97,7 +102,8 @@ def main(tier, seed, replay=None):
         ev = read_enum(dump, "E")
         if ev is None:
             continue    # e.g. a single-value enum may be emitted as a plain type; not an enum-mode case
-        if model is not None:
+        ascii_only = all((not isinstance(v, str)) or v.isascii() for v in vals)
+        if model is not None and ascii_only:
             mv = []
             body, nd = model[i].split(" # ")
             for part in [p for p in body.split(" ; ") if p]:
@@ -161,7 +167,7 @@ fn main() {
                 probes = []
                 for v in vals:
                     if isinstance(v, str):
-                        for s in {v, v.upper(), v.lower(), v.swapcase(), v + "x", "x" + v}:
+                        for s in {v, v.upper(), v.lower(), v.swapcase(), alower(v), v + "x", "x" + v}:
                             probes.append(json.dumps(s))
                     else:
                         probes += [json.dumps(v), json.dumps(str(v).lower() if isinstance(v, bool) else str(v))]
@@ -192,7 +198,7 @@ fn main() {
                     if mq[k]:
                         exp = mres[mi] if exe else None
                         mi += 1
-                        if exp is not None:
+                        if exp is not None and all((not isinstance(v, str)) or v.isascii() for v in vals):
                             expv = "ERR" if exp == "ERR" else "OK " + json.dumps(bytes.fromhex(exp).decode() if exp != "-" else "")
                             if got != expv:
                                 dis.append(f"values {vals} mode {m} input {p}: impl {got} model {expv}")
@@ -209,11 +215,11 @@ fn main() {
                                 viol.append((vals, f"mode {m}: declared value {p} is rejected"))
                             if s not in declared and str(s) not in [str(v).lower() if isinstance(v, bool) else str(v) for v in vals] and got != "ERR":
                                 viol.append((vals, f"mode {m}: undeclared string {p} is accepted as {got}"))
-                            if m == "preserve" and s in declared and got != "ERR" and got != "OK " + p:
+                            if m == "preserve" and s in declared and got != "ERR" and json.loads(got[3:]) != s:
                                 viol.append((vals, f"mode preserve: {p} re-encodes as {got}"))
                         else:
-                            low = [v.lower() for v in declared]
-                            if s.lower() in low and got == "ERR":
+                            low = [alower(v) for v in declared]
+                            if alower(s) in low and got == "ERR":
                                 # known only when the value was merged into another variant (alias)
                                 names = {}
                                 merged = False
@@ -222,7 +228,7 @@ fn main() {
                                     known_hits.add("relaxed-ignores-aliases")
                                 else:
                                     viol.append((vals, f"mode relaxed: {p} (a case variant of a declared value) is rejected"))
-                            if s.lower() not in low and str(s).lower() not in [str(v).lower() for v in vals] and got != "ERR":
+                            if alower(s) not in low and alower(str(s)) not in [alower(str(v)) for v in vals] and got != "ERR":
                                 viol.append((vals, f"mode relaxed: undeclared string {p} is accepted as {got}"))
                     elif p not in ("null",) and got != "ERR" and json.loads(p) in vals:
                         pass
@@ -236,17 +242,17 @@ fn main() {
                     group = [r for _, r, al in kn if s == r or s in al]
                     if m != "relaxed" and group:
                         # merge: colliding values decode to one variant that encodes as the first of them
-                        if got != "OK " + json.dumps(group[0]):
+                        if not (got.startswith("OK ") and json.loads(got[3:]) == group[0]):
                             viol.append((vals, f"open-string wrapper mode {m}: declared {p} decodes/encodes as {got}, expected {group[0]!r}"))
-                    elif m == "relaxed" and s.lower() in [v.lower() for v in declared]:
-                        okset = {"OK " + json.dumps(v) for v in declared if v.lower() == s.lower()} | {"OK " + json.dumps(r) for _, r, al in kn if s.lower() in [a.lower() for a in al]}
-                        if got not in okset:
+                    elif m == "relaxed" and alower(s) in [alower(v) for v in declared]:
+                        okset = {v for v in declared if alower(v) == alower(s)} | {r for _, r, al in kn if alower(s) in [alower(a) for a in al]}
+                        if not (got.startswith("OK ") and json.loads(got[3:]) in okset):
                             ev = kn
                             if any(al for _, _, al in ev) and got == "OK " + p:
                                 known_hits.add("relaxed-ignores-aliases")
                             else:
                                 viol.append((vals, f"open-string wrapper mode relaxed: {p} decodes/encodes as {got}, expected one of {sorted(okset)}"))
-                    elif got != "OK " + p:
+                    elif not (got.startswith("OK ") and json.loads(got[3:]) == s):
                         viol.append((vals, f"open-string wrapper mode {m}: {p} decodes/encodes as {got}"))
     res.counts.update({"evaluations": len(cases) + n_beh, "distinct_nontrivial": len(lists),
                        "traces_validated_against_impl": len(cases), "compiled_enums": len(sample), "behaviour_probes": n_beh,
